@@ -112,8 +112,24 @@ fn eval_single(p: &str, hays: &[String], docs: &[MObj], st: &mut Stats) -> Optio
     };
     let mut e = Vec::with_capacity(hays.len());
     let mut r = Vec::with_capacity(hays.len());
+    // the optimised forms of a single predicate (rewrite strips regexes, shake rebuilds them)
+    let optimised: Vec<(u8, tau_engine::Rule)> = [eng::SW_DEFAULT, 0b0100, 0b0010]
+        .iter()
+        .filter_map(|sw| eng::optimise_with(&rule, *sw, &[]).ok().map(|x| (*sw, x.0)))
+        .collect();
     for (h, d) in hays.iter().zip(docs.iter()) {
         let got = eng::matches(&rule, d).unwrap_or(false);
+        for (sw, o) in &optimised {
+            let og = eng::matches(o, d).unwrap_or(false);
+            st.transitions += 1;
+            if og != got {
+                st.push_violation(Violation {
+                    signature: format!("single:{}:verdict-changes-after-optimise({})", kind(p), eng::sw_name(*sw)),
+                    witness: format!("pattern {:?} on {:?}: as loaded {} after optimise({}) {}", p, h, got, eng::sw_name(*sw), og),
+                    replay: json!({"kind":"optimise","rule_yaml":yaml,"sw_bits":sw,"hash_order_choices":[],"document":crate::report::mobj_to_json(d)}),
+                });
+            }
+        }
         let want = refint::str_rel(&pat, ci, h)?;
         st.states += 1;
         st.transitions += 1;
@@ -204,7 +220,7 @@ pub fn run(tier: Tier) -> i32 {
     let regexes: Vec<&str> = vec![
         "a", "^a", "a$", "^a$", "ab", "a.b", "a.*b", "^.*b$", "a|b", "^(a|b)$", "a+", "a*b", "ab?",
         "(ab)+", "^$", "", ".", "..", "^a.*", ".*a", "b.*$", "(a|b)(a|b)", "a\\.b", "^b*$", "A",
-        "[ab]", "^[^a]", "a{2}", "\\w", "b$|^a",
+        "[ab]", "^[^a]", "a{2}", "\\w", "b$|^a", "\\W", "\\D", "^\\S+$", "a\\B", "(?-i:A)b", "\\pL", ".*a.*", ".*A", "b.*",
     ];
     let needle_alpha: Vec<&str> = if th { vec!["a", "b", "A", "É"] } else { vec!["a", "b", "A"] };
     let hay_alpha: Vec<&str> = if th { vec!["a", "b", "A", "é", "É"] } else { vec!["a", "b", "A"] };
